@@ -42,8 +42,8 @@ class FakeClock(object):
 
 
 def _admit(bl_ne, bl_hit, wl_ne, wl_hit, vi, ts_kind, ts_int, rem, fi, ri, now, proto):
-  value = pick(VALUES, vi)
-  res = pick(RESOLUTIONS, ri)
+  value = VALUES[vi]
+  res = RESOLUTIONS[ri]
   q, r = ts_int, rem
   if res and not (0 <= r < res):
     r = 0
